@@ -142,7 +142,7 @@ def check(ctx):
         ok = rhs[0] == "fmt" and [p[0] for p in rhs[1]] == ["arg", "arg"] and show(unmut(rhs[1][0][2])) in (lhs_place, "<self>") and rhs[1][1][2][0] == "mut"
         ctx.expect(ok, "C04.3", "numbering/new-name", site(n), "new name = old last segment immediately followed by the counter: format!(\"{name}{n}\")",
                    "new name term: %s" % show(rhs)[:300])
-    with ctx.only(lambda k: k == "grouping"):
+    with ctx.only(lambda k: k in ("grouping", "grouping-key")):       # families are formed by the full path: only types that share a path are ever renamed
         c03.grouping(ctx)
     # C04.7: `instantiations of one generic definition still share one path` and `only types that shared a path with a DIFFERENTLY shaped
     # type are renamed` both need the shape comparator to compare CORRESPONDING fields of the two operands (a necessary condition for
